@@ -97,7 +97,7 @@ def gen_index(i: int, seed: int, tier: str) -> dict[str, Any]:
     return {"seed": seed, "tier": "S",
             "config": {"mode": "tunnel", "transport": rng.choice(["udp", "udp", "tcp"]),
                        "auto_reconnect": rng.random() < 0.7},
-            "gw": {"connstate": beh}, "ops": []}
+            "gw": {"connstate": beh, "first_channel": rng.choice([1, 1, 0, 255])}, "ops": []}
 
 
 def gen(seed: int, tier: str) -> dict[str, Any]:
